@@ -1031,13 +1031,13 @@ def _setup(shard):
 FACETS = [
     Facet("hill_solution", sol_case, check_solution, setup=_setup,
           rule="|n t| > 0.1 for some query (all three axes always carry position and velocity)",
-          quick=(12, 500), thorough=(24, 4000)),
+          quick=(12, 400), thorough=(24, 4000)),
     Facet("overlap", overlap_case, check_overlap, setup=_setup,
           rule="some query falls inside a thrust arc after a later-listed maneuver has started",
           quick=(6, 300), thorough=(12, 3000)),
     Facet("spellings", spell_case, check_spellings, setup=_setup,
           rule="every case: hill_solution input under another spelling (labels, containers, form, clone, days, ...)",
-          quick=(8, 350), thorough=(16, 3000)),
+          quick=(8, 300), thorough=(16, 3000)),
     Facet("multi_target", multi_case, check_multi, setup=_setup,
           rule="two live propagators have exactly the same semi major-axis about different bodies",
           quick=(6, 300), thorough=(12, 3000)),
